@@ -24,9 +24,109 @@ import beacon
 
 PID = "C03"
 CLASSES = {"header": 0, "proposer_signature": 0, "randao": 0, "attestation": 0, "attester_slashing": 0, "proposer_slashing": 0,
-           "deposit": 0, "exit": 0, "limits": 0, "indexed_attestation_shape": 0, "sync_aggregate": 1, "payload": 2, "withdrawals": 3, "bls_change": 3, "blobs": 4}
+           "deposit": 0, "exit": 0, "limits": 0, "indexed_attestation_shape": 0,
+           "attestation_data_slashability": 0, "slashable_boundary": 0, "exit_status": 0, "sync_aggregate": 1, "payload": 2, "withdrawals": 3, "bls_change": 3, "blobs": 4}
 FORKS = ["phase0", "altair", "bellatrix", "capella", "deneb"]
 _MARK = re.compile(r'<<\s*"(MISMATCH|CONTROL|UNJUDGED|MODELREJECT)",\s*(\d+),\s*"(\w+)"\s*>>')
+
+
+# Every boolean condition of every process_* operation (consensus spec), the first fork on which it exists and the
+# catalogue variants in which ONLY that condition fails (everything else, signatures included, is valid; "-control"
+# variants sit on the accepting side of an ordered comparison).  Guard: every condition is exercised on every fork.
+P0, ALT, BEL, CAP, DEN = 0, 1, 2, 3, 4
+CONDITIONS = {
+    # state_transition / process_block_header
+    "header.slot == state.slot (after process_slots)": (P0, ["header-slot-plus-one", "header-slot-minus-one"]),
+    "header.proposer_index == get_beacon_proposer_index": (P0, ["wrong-proposer-index", "header-proposer-out-of-range"]),
+    "header.parent_root == hash_tree_root(latest_block_header)": (P0, ["wrong-parent-root"]),
+    "header: proposer not slashed": (P0, ["header-proposer-slashed"]),
+    "block.state_root == hash_tree_root(post)": (P0, ["wrong-state-root"]),
+    "block signature: proposer key": (P0, ["proposer-sig-wrong-key", "proposer-sig-malformed-point"]),
+    "block signature: DOMAIN_BEACON_PROPOSER": (P0, ["proposer-sig-wrong-domain-type"]),
+    "block signature: fork version": (P0, ["proposer-sig-wrong-fork-version"]),
+    "block signature: genesis validators root": (P0, ["proposer-sig-wrong-gvr"]),
+    "block signature: message": (P0, ["proposer-sig-other-message"]),
+    # process_randao
+    "randao: epoch": (P0, ["randao-wrong-epoch"]),
+    "randao: proposer key": (P0, ["randao-other-key"]),
+    "randao: domain": (P0, ["randao-wrong-domain-type"]),
+    # process_attestation
+    "attestation: target.epoch == epoch(slot)": (P0, ["attestation-target-epoch-mismatch"]),
+    "attestation: slot + MIN_ATTESTATION_INCLUSION_DELAY <= state.slot": (P0, ["attestation-too-new"]),
+    "attestation: state.slot <= slot + SLOTS_PER_EPOCH (target epoch window from deneb)": (P0, ["attestation-too-old"]),
+    "attestation: index < committee count": (P0, ["attestation-committee-index-eq-count"]),
+    "attestation: len(bits) == len(committee)": (P0, ["attestation-bits-longer", "attestation-bits-shorter"]),
+    "attestation: source == justified checkpoint": (P0, ["attestation-wrong-source", "attestation-wrong-source-root"]),
+    "attestation: at least one attester": (P0, ["attestation-no-bits"]),
+    "attestation: aggregate signature by exactly the attesters": (P0, ["attestation-missing-signer", "attestation-extra-signer"]),
+    "attestation: signed data / domain": (P0, ["attestation-other-data-signed", "attestation-wrong-domain-type",
+                                               "attestation-wrong-fork-version", "attestation-wrong-gvr"]),
+    "attestation: duplicate is valid (control)": (P0, ["attestation-duplicate-control"]),
+    "operations: list limits": (P0, ["attestations-over-limit"]),
+    # process_proposer_slashing
+    "proposer slashing: header slots equal": (P0, ["proposer-slashing-different-slots"]),
+    "proposer slashing: proposers equal": (P0, ["proposer-slashing-different-proposers"]),
+    "proposer slashing: headers differ": (P0, ["proposer-slashing-same-header"]),
+    "proposer slashing: is_slashable_validator (activation boundary)": (P0, ["pslash-activation-next", "pslash-activation-now-control"]),
+    "proposer slashing: is_slashable_validator (withdrawable boundary)": (P0, ["pslash-withdrawable-now", "pslash-withdrawable-next-control"]),
+    "proposer slashing: header signatures": (P0, ["proposer-slashing-bad-signature-1", "proposer-slashing-wrong-domain-type"]),
+    # process_attester_slashing
+    "attester slashing: is_slashable_attestation_data": (P0, ["aslash-data-2-surrounds-1", "aslash-data-equal-source-inner-target",
+                                                               "aslash-data-disjoint-spans", "aslash-data-adjacent-spans",
+                                                               "aslash-data-identical", "attester-slashing-not-slashable"]),
+    "attester slashing: slashable data accepted (controls)": (P0, ["aslash-data-1-surrounds-2-control", "aslash-data-double-vote-control",
+                                                                    "aslash-data-inner-source-equal-target-control"]),
+    "attester slashing: indices sorted and unique": (P0, ["attester-slashing-duplicate-first-index-resigned-1",
+                                                          "attester-slashing-duplicate-last-index-resigned-1",
+                                                          "attester-slashing-duplicate-first-index-resigned-2",
+                                                          "attester-slashing-duplicate-last-index-resigned-2",
+                                                          "attester-slashing-unsorted-unique-resigned-1",
+                                                          "attester-slashing-unsorted-unique-resigned-2",
+                                                          "attester-slashing-unsorted-indices"]),
+    "attester slashing: indices non-empty / in range": (P0, ["attester-slashing-empty-indices-1", "attester-slashing-empty-indices-2",
+                                                            "attester-slashing-index-out-of-range"]),
+    "attester slashing: signatures": (P0, ["attester-slashing-bad-signature-2", "attester-slashing-signed-other-fork"]),
+    "attester slashing: some validator slashable (activation boundary)": (P0, ["aslash-activation-next", "aslash-activation-now-control"]),
+    "attester slashing: some validator slashable (withdrawable boundary)": (P0, ["aslash-withdrawable-now", "aslash-withdrawable-next-control"]),
+    # process_deposit / deposit count
+    "deposits: count == min(MAX_DEPOSITS, pending)": (P0, ["deposit-missing", "deposit-extra"]),
+    "deposit: merkle proof": (P0, ["deposit-bad-proof", "deposit-proof-top-level", "deposit-proof-length-mixin",
+                                   "deposit-amount-edited", "deposit-swapped-order"]),
+    # process_voluntary_exit
+    "exit: validator active": (P0, ["exit-of-pending-validator", "exit-of-future-activation", "exit-of-exited-validator"]),
+    "exit: not yet initiated": (P0, ["exit-already-initiated", "exit-duplicate"]),
+    "exit: current epoch >= exit.epoch": (P0, ["exit-future-epoch"]),
+    "exit: active for SHARD_COMMITTEE_PERIOD": (P0, ["exit-too-young"]),
+    "exit: signature key / domain": (P0, ["exit-wrong-key", "exit-wrong-domain", "exit-wrong-domain-type", "exit-wrong-gvr"]),
+    "exit: validator index in range": (P0, ["exit-validator-out-of-range"]),
+    # altair: process_sync_aggregate
+    "sync aggregate: signed root": (ALT, ["sync-aggregate-wrong-root"]),
+    "sync aggregate: signature by exactly the participants": (ALT, ["sync-aggregate-extra-bit", "sync-aggregate-bit-cleared",
+                                                                   "sync-aggregate-garbage-signature", "sync-aggregate-infinity-with-bits"]),
+    # bellatrix+: process_execution_payload
+    "payload: parent_hash": (BEL, ["payload-wrong-parent-hash"]),
+    "payload: prev_randao": (BEL, ["payload-wrong-prev-randao"]),
+    "payload: timestamp": (BEL, ["payload-wrong-timestamp"]),
+    # capella+: process_withdrawals, process_bls_to_execution_change
+    "withdrawals == expected (count)": (CAP, ["withdrawals-dropped-last", "withdrawals-extra", "wrong-withdrawals"]),
+    "withdrawals == expected (index / validator / address / amount)": (CAP, ["withdrawals-index-shifted", "withdrawals-other-validator",
+                                                                            "withdrawals-other-address", "withdrawals-amount-plus-one"]),
+    "bls change: validator index in range": (CAP, ["bls-change-index-out-of-range"]),
+    "bls change: credentials hash of the key": (CAP, ["bls-change-pubkey-hash-mismatch"]),
+    "bls change: signature key / domain": (CAP, ["bls-change-wrong-key", "bls-change-fork-dependent-domain"]),
+    # deneb
+    "blob commitments <= MAX_BLOBS_PER_BLOCK": (DEN, ["too-many-blobs"]),
+}
+
+
+def uncovered_conditions(counters):
+    """(condition, fork) pairs for which no variant of the condition ran on that fork."""
+    out = []
+    for cond, (first, variants) in CONDITIONS.items():
+        for fi in range(first, len(FORKS)):
+            if not any(counters.get("neg_vf_%s_%s" % (v, FORKS[fi]), 0) for v in variants):
+                out.append("%s @ %s" % (cond, FORKS[fi]))
+    return out
 
 
 def record(tier, seed):
@@ -96,13 +196,14 @@ def main(tier, seed, replay=None):
         for fi in range(first, len(FORKS)):
             if c.get("neg_class_%s_%s" % (cl, FORKS[fi]), 0) == 0:
                 missing.append("%s/%s" % (cl, FORKS[fi]))
+    missing += uncovered_conditions(c)
     if tier == "thorough" and c.get("neg_class_bytes", 0) == 0:
         missing.append("bytes")
-    if missing:
-        raise lib.InfraError("vacuity guard: catalogue classes never exercised on a fork where they exist: %s" % ", ".join(missing))
     files = [f["path"] for f in stats["files"] if f["events"] > 1]
     results = lib.parallel_map(validate_file, files, workers=min(16, lib.NCPU))
     violations = [(r["file"], m) for r in results for m in r["mismatches"] if m["kind"] in NEG_KINDS]
+    if missing and not violations:
+        raise lib.InfraError("vacuity guard: catalogue classes / conditions never exercised on a fork where they exist: %s" % ", ".join(missing))
     base = sum(1 for r in results for m in r["mismatches"] if m["kind"] not in NEG_KINDS)
     if base:
         lib.log("note: %d mismatch(es) on the valid base chains (judged by C01/C02, not C03)" % base)
@@ -138,7 +239,7 @@ def main(tier, seed, replay=None):
         "rejected": c.get("neg_rejected", 0), "accepted": c.get("neg_accepted", 0), "panics": c.get("neg_panic", 0),
         "clamped_numbers": c.get("neg_clamped", 0),
         "per_class_fork": {k[len("neg_class_"):]: v for k, v in c.items() if k.startswith("neg_class_")},
-        "per_variant": per_variant, "samples": samples, "trace_files": len(files), "base_chain_blocks": c.get("block_events", 0),
+        "per_variant": per_variant, "conditions_guarded": len(CONDITIONS), "samples": samples, "trace_files": len(files), "base_chain_blocks": c.get("block_events", 0),
     }
     rc = 0
     for f, m in violations[:5]:
